@@ -233,6 +233,7 @@ type runState struct {
 	noPanicOK bool // harness allows target panics to end a path silently
 	icounts   map[string]int
 	initPhase bool
+	callCounts map[string]int
 }
 
 func newSolver(cmd []string) (*smt.Solver, error) { return smt.NewSolver(cmd...) }
